@@ -4,6 +4,7 @@ import (
 	"bytes"
 	"fmt"
 	"sort"
+	"strings"
 	"testing"
 
 	specqbft "github.com/bloxapp/ssv-spec/qbft"
@@ -121,6 +122,9 @@ func timeoutStep(s *qbftsim.Sim, ev *qbftsim.Event) *prog.Failure {
 	if ev.After.Arms != ev.Before.Arms+1 || !ok || arm.Round != want || arm.Height != s.Height {
 		return prog.Failf("C07:timeout-no-rearm", "op%d: timer not re-armed exactly once for (h%d, r%d) after the timeout: arms %d->%d last=%+v", ev.Op, s.Height, want, ev.Before.Arms, ev.After.Arms, arm)
 	}
+	if ev.Err != nil && strings.Contains(ev.Err.Error(), "injected broadcast failure") && len(ev.Emitted) == 0 {
+		return nil // the network lost the announcement (injected fault): the operator itself did move on and re-arm
+	}
 	if len(ev.Emitted) != 1 {
 		return prog.Failf("C07:timeout-announcement-count", "op%d: timeout of round %d broadcast %d messages, want exactly one round-change", ev.Op, ev.Before.Round, len(ev.Emitted))
 	}
@@ -176,6 +180,9 @@ func continuation(p qbftsim.Prog, alt int, forward bool, lockstep bool) contResu
 	}
 	cr.lagging = len(rounds) >= 2
 	cr.twoPrepared = len(roots) >= 2
+	for _, id := range s.Correct { // the continuation has a working network
+		s.Ops[id].Net.FailNext, s.Ops[id].Net.LoseNext = 0, 0
+	}
 	s.Logf("---- switch point (alt %d, forward accepted certificates=%v, lock-step timers=%v) ----", alt, forward, lockstep)
 	s.ForwardAccepted = forward
 	var order func([]*qbftsim.PoolMsg) []*qbftsim.PoolMsg
@@ -397,7 +404,7 @@ func runContPolicy(c ContProg, lockstep bool) *prog.Result {
 }
 
 func genCont(t *rapid.T) ContProg {
-	return ContProg{Prefix: qbftsim.Gen(t, qbftsim.GenOpts{Ns: []int{4, 4, 7}, MaxOps: 30}), Alts: rapid.SliceOfN(rapid.IntRange(4, 1000), 3, 3).Draw(t, "alts")}
+	return ContProg{Prefix: qbftsim.Gen(t, qbftsim.GenOpts{Ns: []int{4, 4, 7}, MaxOps: 30, NetFaults: true}), Alts: rapid.SliceOfN(rapid.IntRange(4, 1000), 3, 3).Draw(t, "alts")}
 }
 
 func TestPropContinuation(t *testing.T) {
